@@ -144,6 +144,12 @@ def check_hash(case, res, monitor=False):
         except AssembleError as ex:
             res.count("hash_assemble_error")
             return None
+        except (AttributeError, KeyError, TypeError, IndexError) as ex:
+            res.violation("unexplained:hash-program-construction-raised",
+                          f"creating / generating a well-formed program with "
+                          f"hash-map variables raised {type(ex).__name__}: "
+                          f"{ex}", case=case.get("vars"))
+            return None
         mon = sysmon.Monitor(sess) if monitor else None
         try:
             try:
@@ -467,6 +473,11 @@ def check_dict(case, res, monitor=False):
                           f"Dict program cannot be generated: {ex}",
                           case=desc)
             return None
+        except (AttributeError, KeyError, TypeError, IndexError) as ex:
+            res.violation("unexplained:dict-program-construction-raised",
+                          f"creating / generating a well-formed Dict program "
+                          f"raised {type(ex).__name__}: {ex}", case=desc)
+            return None
         mon = sysmon.Monitor(sess) if monitor else None
         try:
             if mon:
@@ -577,7 +588,15 @@ def check_dict(case, res, monitor=False):
                     if not model:
                         continue     # iteration of an empty map: see C10
                     try:
-                        got = sorted(bytes(k.data) for k in e.d)
+                        # the keys are kept beyond the iteration step that
+                        # produced them (list(table), sorted(table), ...)
+                        keys = list(e.d)
+                        got = sorted(bytes(k.data) for k in keys)
+                        if len(keys) >= 2:
+                            res.count("py_iterations_keeping_the_keys")
+                        items = list(e.d.items())
+                        got_items = {bytes(k.data): bytes(v.data)
+                                     for k, v in items}
                     except Exception as ex:
                         return fail("unexplained:dict-py-iter",
                                     f"iteration raised {ex!r}", op) or mon
@@ -585,11 +604,16 @@ def check_dict(case, res, monitor=False):
                         return fail("unexplained:dict-py-iter",
                                     f"keys {got} vs model {sorted(model)}",
                                     op) or mon
+                    if got_items != model:
+                        return fail("unexplained:dict-py-iter",
+                                    f"items() gave {got_items} vs model "
+                                    f"{model}", op) or mon
                 elif op[0] == "py_values":
                     if not model:
                         continue
                     try:
-                        got = sorted(bytes(v.data) for v in e.d.values())
+                        vals = list(e.d.values())
+                        got = sorted(bytes(v.data) for v in vals)
                     except Exception as ex:
                         return fail("unexplained:dict-py-values",
                                     f"values() raised {ex!r}", op) or mon
